@@ -98,10 +98,14 @@ func canonComment(lit string) (m, body string) {
 }
 
 type layout struct {
-	rng *rand.Rand // nil = canonical single-space layout
+	rng  *rand.Rand // nil = canonical single-space layout
+	tabs bool       // a tab between tokens and after macro / annotation words
 }
 
 func (l *layout) sep() string {
+	if l.tabs {
+		return "\t"
+	}
 	if l.rng == nil {
 		return " "
 	}
@@ -147,6 +151,9 @@ func render(toks []piece, cm []comment, lay *layout) (string, []piece) {
 		switch p.T {
 		case "w":
 			word(p.S)
+			if lay.tabs && strings.HasPrefix(p.S, "#FASTLY") {
+				sb.WriteString("\t")
+			}
 		case "nl":
 			if !lineEmpty {
 				nl()
@@ -162,6 +169,13 @@ func render(toks []piece, cm []comment, lay *layout) (string, []piece) {
 		case "g":
 			gaps = append(gaps, p)
 			for _, c := range at[len(gaps)] {
+				if c.Sp == "blankonly" { // no comment, just an empty line at this (own-line) position
+					if !lineEmpty {
+						nl()
+					}
+					nl()
+					continue
+				}
 				txt := commentText(c)
 				switch p.C {
 				case "lead", "inner":
@@ -177,6 +191,12 @@ func render(toks []piece, cm []comment, lay *layout) (string, []piece) {
 					sb.WriteString(txt)
 					nl()
 				default: // in, trail
+					if c.Sp == "blankbefore" { // an empty line above the comment, inside the statement
+						if !lineEmpty {
+							nl()
+						}
+						nl()
+					}
 					if !lineEmpty {
 						sb.WriteString(" ")
 					}
